@@ -167,6 +167,17 @@ def run(c):
     tmp = os.path.join(c.work, "tmp")
     os.makedirs(tmp, exist_ok=True)
 
+    def crashed(out, mode, seed):
+        """the Go runtime itself detected unsynchronised map access (or a deadlock) and killed the process"""
+        m = re.search(r"fatal error: (concurrent map [a-z ]+|all goroutines are asleep - deadlock!|sync: [^\n]+)", out)
+        if not m:
+            return False
+        i = out.find("fatal error:")
+        c.fail("oracle", "the Go runtime aborted concurrent Run / FindType calls on one engine: " + m.group(1),
+               input={"harness": "harness/cmd/c08 (-race)", "mode": mode, "seed": seed},
+               expected="all calls return", observed=out[i:i + 2500])
+        return True
+
     def explore(hb, seed, budget, tag, fresh=False, ns="2,4,16"):
         args = ["-mode", "explore", "-seed", str(seed), "-budget", str(budget), "-tmp", os.path.join(tmp, tag), "-ns", ns]
         if fresh:
@@ -174,8 +185,8 @@ def run(c):
         rc, out = c.run_harness(hb, args, timeout=3000,
                                 env={"GORACE": "halt_on_error=0 log_path=%s" % os.path.join(race_dir, tag)})
         lines = jlines(out)
-        if rc != 0 or not any(l.get("k") == "done" for l in lines):
-            c.obligation("harness-run:c08-explore-" + tag, False, out[-3000:])
+        if rc not in (0, 66) or not any(l.get("k") == "done" for l in lines):  # 66: the race detector reported (judged below)
+            crashed(out, "explore", seed) or c.obligation("harness-run:c08-explore-" + tag, False, out[-3000:])
         return lines
 
     def findtype(hb, seed, nscripts, nbursts, tag):
@@ -184,8 +195,8 @@ def run(c):
         rc, out = c.run_harness(hb, args, timeout=3000,
                                 env={"GORACE": "halt_on_error=0 log_path=%s" % os.path.join(race_dir, tag)})
         lines = jlines(out)
-        if rc != 0 or not any(l.get("k") == "done" for l in lines):
-            c.obligation("harness-run:c08-findtype-" + tag, False, out[-3000:])
+        if rc not in (0, 66) or not any(l.get("k") == "done" for l in lines):  # 66: the race detector reported (judged below)
+            crashed(out, "findtype", seed) or c.obligation("harness-run:c08-findtype-" + tag, False, out[-3000:])
         return lines
 
     with ThreadPoolExecutor(max_workers=4) as ex:
@@ -388,9 +399,12 @@ def run(c):
             if key in seen:
                 continue
             seen.add(key)
+            if len(seen) > 5:
+                continue
             keep = os.path.join(c.verif, "replays", "C08-race-%s-%d-%d.log" % (c.tier, c.seed, len(seen)))
             try:
-                shutil.copy(r["log"], keep)
+                with open(keep, "w") as f:
+                    f.write(r["text"][:200000] + "\n")
             except OSError:
                 keep = r["log"]
             c.fail("oracle", "the race detector reports a data race during concurrent Run / FindType calls on one engine",
